@@ -21,7 +21,8 @@ def add(pid, engine, cat, technique, text, note, ref):
 add("C19", "pure", "exploration",
     "property-based testing (rapid) with a lossless-concatenation oracle; native go fuzz target in thorough",
     "Generated strings (ASCII words, separators at any position, Unicode case classes, invalid UTF-8) are split and converted; "
-    "the oracle checks no panic, non-empty words, concatenation == input, invalid UTF-8 => single word, converter purity. "
+    "the oracle checks no panic, non-empty words, concatenation == input, invalid UTF-8 => single word, converter purity "
+    "(repeated calls; the same inputs converted in two fresh processes in opposite orders; 2-16 goroutines converting simultaneously against the sequential answers). "
     "Exploration is the right level: the domain is all strings and the oracle is exact.",
     "Trusts unicode/utf8 of the Go standard library for the validity and class predicates; purity judged by repeated calls.",
     "DESIGN.md section 3, C19")
